@@ -72,6 +72,68 @@ theorem resolve_latched (s : St) (id : Nat) (v : Val) (p : Prom) (hp : s.proms[i
   rw [hp]
   simp [hl]
 
+
+/-! ### each reaction is scheduled exactly once -/
+
+theorem foldl_enqueue_queue (rs : List Reaction) (fulfil : Bool) (v : Val) : ∀ (s : St),
+    (rs.foldl (fun acc r => enqueue acc (.reaction r fulfil v)) s).queue = s.queue ++ rs.map (fun r => Job.reaction r fulfil v) ∧
+    (rs.foldl (fun acc r => enqueue acc (.reaction r fulfil v)) s).proms = s.proms := by
+  induction rs with
+  | nil => intro s; simp
+  | cons r rs ih =>
+    intro s
+    simp only [List.foldl_cons, List.map_cons]
+    obtain ⟨h1, h2⟩ := ih (enqueue s (.reaction r fulfil v))
+    exact ⟨by rw [h1, enqueue_appends]; simp, by rw [h2]; rfl⟩
+
+/-- SETTLING SCHEDULES EVERY STORED REACTION EXACTLY ONCE, IN REGISTRATION ORDER, and empties the list: the promise is
+    settled afterwards, so by `settle_settled` nothing is ever scheduled from it again -/
+theorem settle_schedules_each_once (s : St) (id : Nat) (fulfil : Bool) (v : Val) (rs : List Reaction) (l : Bool)
+    (hp : s.proms[id]? = some { st := .pending rs, locked := l }) :
+    (settle s id fulfil v).queue = s.queue ++ rs.map (fun r => Job.reaction r fulfil v) ∧
+    (settle s id fulfil v).proms[id]? = some { st := if fulfil then .fulfilled v else .rejected v, locked := l } := by
+  unfold settle
+  rw [hp]
+  simp only
+  obtain ⟨h1, h2⟩ := foldl_enqueue_queue rs fulfil v
+    (setProm s id { st := if fulfil then .fulfilled v else .rejected v, locked := l })
+  refine ⟨by rw [h1]; rfl, ?_⟩
+  rw [h2]
+  unfold setProm
+  have hlt : id < s.proms.length := (List.getElem?_eq_some_iff.mp hp).1
+  simp [hlt]
+
+/-- `then` on a pending promise stores the reaction and schedules nothing -/
+theorem performThen_pending (s : St) (id : Nat) (r : Reaction) (rs : List Reaction) (l : Bool)
+    (hp : s.proms[id]? = some { st := .pending rs, locked := l }) :
+    (performThen s id r).queue = s.queue ∧
+    (performThen s id r).proms[id]? = some { st := .pending (rs ++ [r]), locked := l } := by
+  unfold performThen
+  rw [hp]
+  simp only
+  unfold setProm
+  have hlt : id < s.proms.length := (List.getElem?_eq_some_iff.mp hp).1
+  exact ⟨rfl, by simp [hlt]⟩
+
+/-- `then` on a settled promise schedules exactly one job for the reaction, behind everything already queued, and
+    stores nothing (so no later event can schedule it a second time) -/
+theorem performThen_settled (s : St) (id : Nat) (r : Reaction) (p : Prom) (hp : s.proms[id]? = some p)
+    (hs : ∀ rs, p.st ≠ .pending rs) :
+    (∃ fulfil v, (performThen s id r).queue = s.queue ++ [Job.reaction r fulfil v]) ∧ (performThen s id r).proms = s.proms := by
+  unfold performThen
+  rw [hp]
+  cases p with
+  | mk st locked =>
+    cases st with
+    | pending rs => exact absurd rfl (hs rs)
+    | fulfilled w => exact ⟨⟨true, w, rfl⟩, rfl⟩
+    | rejected w => exact ⟨⟨false, w, rfl⟩, rfl⟩
+
+/-- the job loop consumes a job when it runs it: the queue after a turn is the tail plus whatever the job scheduled -/
+theorem stepQueue_consumes (bodies : List Body) (s : St) (j : Job) (rest : List Job) (h : s.queue = j :: rest) :
+    stepQueue bodies s = runJob bodies { s with queue := rest } j ∧ ({ s with queue := rest } : St).queue = rest :=
+  ⟨stepQueue_takes_head bodies s j rest h, rfl⟩
+
 -- a concrete program: p.then(f) registered before and after resolution, resolution with a promise (two extra turns)
 def demoBodies : List Body := [
   { tag := 0, res := .ret (.num 0), ops := [.newP 0, .thenP 0 (some 1) none 1, .resolved 2 (.num 7), .resolve 0 (.var 2), .thenP 2 (some 2) none 3, .print 9] },
